@@ -1653,4 +1653,65 @@ theorem updBlockVals_flags (r : List DNode) (vs : List OParam) (hn : noSplitB r 
 
 def nBlock : TNode := { k := .block, rule := "block", text := "BLOCK(2)" }
 
+
+/-! ### BLOCK records: a value that did not change keeps the written number (fix f0abfd5) -/
+
+theorem mergeKept_same (written : List Val) (ws : List String) (news : List OParam)
+    (h1 : ws.length = written.length) (h2 : news.length = written.length) :
+    (mergeKept written ws news (news.map (·.raw))).map (·.raw) = written := by
+  induction written generalizing ws news with
+  | nil =>
+    cases ws <;> cases news <;> simp_all [mergeKept]
+  | cons w written ih =>
+    cases ws with
+    | nil => simp at h1
+    | cons s ws =>
+      cases news with
+      | nil => simp at h2
+      | cons n news =>
+        simp only [List.length_cons, Nat.add_right_cancel_iff] at h1 h2
+        simp [mergeKept, ih ws news h1 h2]
+
+/-- handing every `omega` node its own written value changes nothing -/
+theorem updBlockVals_written (r : List DNode) (vals : List OParam)
+    (h : vals.map (·.raw) = writtenVals r) : updBlockVals r vals = r := by
+  induction r generalizing vals with
+  | nil => rfl
+  | cons x r ih =>
+    cases x with
+    | tok t => simp only [updBlockVals]; rw [ih vals (by simpa [writtenVals] using h)]
+    | diagonal t => simp only [updBlockVals]; rw [ih vals (by simpa [writtenVals] using h)]
+    | item cs =>
+      simp only [writtenVals] at h
+      have hlen : (List.replicate (multiple cs) ((valK .init cs).getD zero)).length = multiple cs := by simp
+      have htake : (vals.take (multiple cs)).map (·.raw) = List.replicate (multiple cs) ((valK .init cs).getD zero) := by
+        rw [List.map_take, h, List.take_left' hlen]
+      have hdrop : (vals.drop (multiple cs)).map (·.raw) = writtenVals r := by
+        rw [List.map_drop, h, List.drop_left' hlen]
+      simp only [updBlockVals, ih _ hdrop]
+      have hitem : updOmegaItem cs (vals.take (multiple cs)) = [.item cs] := by
+        unfold updOmegaItem
+        cases ht : vals.take (multiple cs) with
+        | nil => rfl
+        | cons v rest =>
+          rw [ht] at htake
+          have hall : ∀ q ∈ v :: rest, q.raw = (valK .init cs).getD zero := by
+            intro q hq
+            have : q.raw ∈ (v :: rest).map (·.raw) := List.mem_map_of_mem hq
+            rw [htake] at this
+            exact (List.mem_replicate.mp this).2
+          have hv := hall v (by simp)
+          have : (v :: rest).all (fun q => q.raw == v.raw) = true := by
+            simp only [List.all_eq_true, beq_iff_eq]
+            intro q hq; rw [hall q hq, hv]
+          simp only [this, ↓reduceIte]
+          congr 2
+          unfold setRaw
+          cases hf : findK .init cs with
+          | none => rfl
+          | some i =>
+            have : i.val = v.raw := by simp [hv, valK, hf]
+            simp [this]
+      rw [hitem]; rfl
+
 end Pharmpy.C04
